@@ -196,6 +196,18 @@ def scenario(draw) -> Dict[str, Any]:
         for b in case['browsers']:
             b['types'] = sorted({t if t != ti else (ti + 1) % 3 for t in b['types']})
         lb['types'], lb['at_s'] = [ti], 'expiry'
+    if not restart and draw(st.integers(0, 7)) == 0:
+        # long haul: a machine joins the link when the pointers in everybody's cache are 45-50 % of their lifetime old, browses for
+        # half a minute and is gone again (its first questions are answered by multicast, which renews the cached copies of all the
+        # others in the first half of their life); the browsers that were there from the start are looked at again 160 minutes later
+        ti = draw(st.sampled_from(sorted({sv['type'] for sv in services})))
+        case['late_s'] = 9600
+        case['late_browser'] = {'host': 0, 'types': sorted({ti} | set(draw(st.lists(st.integers(0, 2), max_size=1)))),
+                                'at_s': draw(st.sampled_from([2050, 2100, 2150, 2200])), 'cancel': True, 'new_host': True,
+                                'leave': draw(st.booleans())}
+        case['ops'] = [o for o in case['ops'] if not (o['op'] == 'cancel_browser' and o['browser'] == 0)]
+        b0 = case['browsers'][0]
+        b0['types'] = sorted(set(b0['types']) | {ti})
     return case
 
 
@@ -474,9 +486,15 @@ class Run:
                 else:
                     await asyncio.sleep(lb['at_s'])
                     slept = lb['at_s']
-                self.late_listener = sim.RecListener(w, tag=f"H{lb['host']}", on_add=on_add)
+                lhost, ltag = hosts[lb['host']], f"H{lb['host']}"
+                if lb.get('new_host'):
+                    # a machine that joins the link only now (empty cache: its questions carry no known answers, so they are answered)
+                    ltag = f"H{case['hosts']}"
+                    lhost = w.add_host(ltag, socks=[('v4', f"10.0.0.{case['hosts'] + 1}")])
+                    await lhost.zc.async_wait_for_start()
+                self.late_listener = sim.RecListener(w, tag=ltag, on_add=on_add)
                 types = [TYPES[i] for i in lb['types']]
-                late_br = AsyncServiceBrowser(hosts[lb['host']].zc, types if len(types) > 1 else types[0], listener=self.late_listener)
+                late_br = AsyncServiceBrowser(lhost.zc, types if len(types) > 1 else types[0], listener=self.late_listener)
                 if lb.get('cancel') and lb['at_s'] != 'expiry' and case['late_s'] - slept > 120:
                     await asyncio.sleep(30.0)
                     slept += 30.0
@@ -484,6 +502,8 @@ class Run:
                     self.late_browser_events = list(self.late_listener.events)
                     await late_br.async_cancel()
                     self.late_cancelled = True
+                    if lb.get('new_host') and lb.get('leave'):
+                        await lhost.azc.async_close()          # ... and leaves again
             await asyncio.sleep(case['late_s'] - slept)
             if self.late_listener is not None and not getattr(self, 'late_cancelled', False):
                 self.late_browser_live = {t: set(v) for t, v in self.late_listener.live().items()}      # before the hosts are torn down
@@ -790,5 +810,7 @@ def check(case: Dict[str, Any]) -> Dict[str, Any]:
                 classes.append('browser-started-when-an-unrefreshed-pointer-ran-out' + ('-before-the-purge' if getattr(base, 'late_in_purge_window', False) else '-(not reached)'))
             else:
                 classes.append('browser-started-%d-s-after-settling' % case['late_browser']['at_s'])
+                if case['late_browser'].get('new_host'):
+                    classes.append('late-browser-on-a-machine-that-joined-the-link-just-then' + ('-and-left-again' if case['late_browser'].get('leave') else ''))
     return {'nontrivial': used_drop or base.in_flight_browser_start, 'classes': classes, 'evaluations': runs,
             'max': {'datagrams': n, 'runs': runs, 'lookups': len(base.lookups)}, 'sample': {'case': case, 'datagrams': n, 'runs': runs}}
